@@ -1239,6 +1239,8 @@ func genReplayTest(pkg *types.Package, fn *ssa.Function, call string, cases []*r
 	sb.WriteString("}\n")
 	sb.WriteString("\nfunc TestVcgoReplay(t *testing.T) {\n")
 	sb.WriteString("\tvar _ = time.Now\n\tvar _ unsafe.Pointer\n\tvar _ = big.NewInt\n")
+	// the function under replay may create files named by the candidate input: not in the package directory of the tree
+	sb.WriteString("\tt.Chdir(t.TempDir())\n")
 	sb.WriteString("\tfor ci, cs := range vcgoCases {\n\t\t_ = cs\n")
 	for i := range argTypes {
 		fmt.Fprintf(&sb, "\t\tvar a%d %s\n\t\tvcgoBuild(reflect.ValueOf(&a%d).Elem(), cs[%d])\n", i, argTypes[i], i, i)
